@@ -137,7 +137,7 @@ def cases(ctx):
                     yield from three(fn, [m], fn, op="c.%s %s" % (fn, m) if fn in ("df", "typecode", "icao", "idcode", "altcode") else None)
                 if n == 112:
                     yield from three("allzeros", [m], "allzeros")
-    for _ in range(ctx.n(4000, 200000)):
+    for _ in range(ctx.n(4000, 40000)):
         n = rng.choice([56, 112])
         f = spec.background(rng, n, "rand")
         m = hex_of(f, rng.choice(["upper", "lower", "upper"]))
@@ -180,7 +180,7 @@ def cases(ctx):
         pts += [t + 1e-6, t - 1e-6, -(t + 1e-6), -(t - 1e-6)]
         for d_ in (2e-9, 5e-9, 1e-8, 1e-7):
             pts += [t + d_, t - d_, -(t + d_), -(t - d_)]
-    pts += [rng.uniform(-90, 90) for _ in range(ctx.n(3000, 100000))]
+    pts += [rng.uniform(-90, 90) for _ in range(ctx.n(3000, 30000))]
     for x in pts:
         yield from three("cprNL", [x], "cprNL")
     for x in [0.0, -0.0, 3.6, -3.6, 1e15, -1e15, 0.5, -0.5, 2.0 ** 52] + [rng.uniform(-1e6, 1e6) for _ in range(500)]:
@@ -189,7 +189,7 @@ def cases(ctx):
     DEC = ["pyModeS.adsb.altitude", "pyModeS.adsb.typecode", "pyModeS.adsb.callsign", "pyModeS.adsb.velocity", "pyModeS.adsb.nuc_p",
            "pyModeS.adsb.oe_flag", "pyModeS.surv.altitude", "pyModeS.surv.identity", "pyModeS.surv.fs", "pyModeS.commb.is60",
            "pyModeS.commb.cs20", "pyModeS.commb.roll50", "pyModeS.bds.infer", "pyModeS.allcall.interrogator", "pyModeS.adsb.selected_heading"]
-    for _ in range(ctx.n(600, 20000)):
+    for _ in range(ctx.n(600, 6000)):
         df = rng.choice([17, 17, 18, 20, 21, 4, 5, 11, 0])
         n = 112 if df >= 16 else 56
         f = spec.background(rng, n, rng.choice(["rand", "rand", "zero"]))
